@@ -784,3 +784,72 @@ func DecodeTwoOfFive(bits []bool, interleaved bool) (string, error) {
 // Mod10Weighted31 returns the check digit that makes the 3-1 weighted sum (from the
 // right, check digit weight 1) a multiple of ten.
 func Mod10Weighted31(digits string) int { return GS1CheckDigit(digits) }
+
+// ---------------------------------------------------------------- full-ASCII expansion (encoder direction)
+
+// fullASCIIPair returns the shift character class ('$','%','/','+' or 0 for "direct")
+// and the letter for an ASCII character, per the Code 39 / Code 93 full-ASCII tables.
+func fullASCIIPair(c byte) (shift byte, letter byte) {
+	switch {
+	case c == 0:
+		return '%', 'U'
+	case c >= 1 && c <= 26:
+		return '$', 'A' + c - 1
+	case c >= 27 && c <= 31:
+		return '%', 'A' + c - 27
+	case c == ' ' || c == '-' || c == '.' || (c >= '0' && c <= '9') || (c >= 'A' && c <= 'Z'):
+		return 0, c
+	case c >= '!' && c <= ',':
+		return '/', 'A' + c - '!'
+	case c == '/':
+		return '/', 'O'
+	case c == ':':
+		return '/', 'Z'
+	case c >= ';' && c <= '?':
+		return '%', 'F' + c - ';'
+	case c == '@':
+		return '%', 'V'
+	case c >= '[' && c <= '_':
+		return '%', 'K' + c - '['
+	case c == '`':
+		return '%', 'W'
+	case c >= 'a' && c <= 'z':
+		return '+', 'A' + c - 'a'
+	case c >= '{' && c <= 127:
+		return '%', 'P' + c - '{'
+	}
+	return 0, c
+}
+
+// Code39Expand spells an ASCII text in the 43-character alphabet.
+func Code39Expand(s string) string {
+	var out []byte
+	for i := 0; i < len(s); i++ {
+		sh, l := fullASCIIPair(s[i])
+		if sh != 0 {
+			out = append(out, sh)
+		}
+		out = append(out, l)
+	}
+	return string(out)
+}
+
+// Code93Expand spells an ASCII text with the library's runes for ($)(%)(/)(+).
+func Code93Expand(s string) string {
+	var out []rune
+	for i := 0; i < len(s); i++ {
+		sh, l := fullASCIIPair(s[i])
+		switch sh {
+		case '$':
+			out = append(out, 0xf1)
+		case '%':
+			out = append(out, 0xf2)
+		case '/':
+			out = append(out, 0xf3)
+		case '+':
+			out = append(out, 0xf4)
+		}
+		out = append(out, rune(l))
+	}
+	return string(out)
+}
